@@ -23,29 +23,27 @@ def step (st : St) (ws : List String) : St × String :=
     match ws with
     | ["close"] => let st' := close st; (st', s!"close ok {st'.file.length}")
     | ["w", off, len, seed] =>
-      let (rc, sp, st') := write st (intArg off) (pattern (natArg seed) (natArg len))
-      (st', s!"w {rc.name} {sp} {st'.fsize}")
+      let d := pattern (natArg seed) (natArg len)
+      let (st', rc, _) := exec st (.write (intArg off) d)
+      (st', s!"w {rc.name} {if rc == .ok then d.length else 0} {st'.fsize}")
     | ["r", off, len] =>
-      let (rc, bs) := read st (intArg off) (natArg len)
+      let (_, rc, bs) := exec st (.read (intArg off) (natArg len))
       (st, s!"r {rc.name} {bs.length} {hex8 (fnv32 bs)} {hexOut (bs.take 24)}")
     | ["cp", off, siz, noff] =>
-      let (rc, st') := copy st (natArg off) (natArg siz) (natArg noff)
+      let (st', rc, _) := exec st (.copy (natArg off) (natArg siz) (natArg noff))
       (st', s!"cp {rc.name} {st'.fsize}")
-    | ["tr", size] => let (rc, st') := truncate st (natArg size); (st', s!"tr {rc.name} {st'.fsize}")
-    | ["es", size] => let (rc, st') := ensureSize st (natArg size); (st', s!"es {rc.name} {st'.fsize}")
+    | ["tr", size] => let (st', rc, _) := exec st (.truncate (natArg size)); (st', s!"tr {rc.name} {st'.fsize}")
+    | ["es", size] => let (st', rc, _) := exec st (.ensure (natArg size)); (st', s!"es {rc.name} {st'.fsize}")
     | ["am", off, maxlen, opts] =>
-      let (rc, st') := addMmap st (natArg off) (natArg maxlen) (natArg opts % 2 == Gen.Exf.IWFS_MMAP_PRIVATE)
+      let (st', rc, _) := exec st (.addMmap (natArg off) (natArg maxlen) (natArg opts % 2 == Gen.Exf.IWFS_MMAP_PRIVATE))
       (st', s!"am {rc.name}")
-    | ["rm", off] => let (rc, st') := removeMmap st (natArg off); (st', s!"rm {rc.name}")
+    | ["rm", off] => let (st', rc, _) := exec st (.removeMmap (natArg off)); (st', s!"rm {rc.name}")
     | ["sm", off] => (st, s!"sm {(probeMmap st (natArg off)).1.name}")
     | ["pm", off] => let (rc, n) := probeMmap st (natArg off); (st, s!"pm {rc.name} {n}")
     | ["mw", so, rel, len, seed] =>
-      let (rc, n) := probeMmap st (natArg so)
-      if rc != .ok then (st, s!"mw {rc.name} {n}")
-      else if natArg rel + natArg len ≤ n then
-        (mmapWrite st (natArg so) (natArg rel) (pattern (natArg seed) (natArg len)), s!"mw ok {n}")
-      else (st, s!"mw range {n}")
-    | ["ra"] => ({ st with slots := remapAll st.fsize st.slots }, "ra ok")
+      let (st', rc, _) := exec st (.mmapWrite (natArg so) (natArg rel) (pattern (natArg seed) (natArg len)))
+      (st', s!"mw {rc.name} {(probeMmap st (natArg so)).2}")
+    | ["ra"] => let (st', rc, _) := exec st .remapAll; (st', s!"ra {rc.name}")
     | ["sy"] => (st, "sy ok")
     | ["st"] => (st, s!"st {st.fsize} {st.file.length}")
     | _ => (st, "bad-op")
